@@ -202,6 +202,24 @@ def run(ctx: Context) -> None:
     c06.r5(sub, sqlmini.sites(repo))
     for i in sub.instances:
         ctx.add("R4", i.key.split("/", 2)[2], i.ok, i.where, i.detail)
+    # R5 shared: the lookup can only find what is still indexed (C16/R7), and two spellings of one call must give one
+    # identity (C15/R2: from_call applies the defaults on every path)
+    from . import c15, c16
+
+    ctx.rule("R5", "shared: the in-memory task / call / argument indexes lose a whole key only when it is empty (C16/R7) - a live invocation that vanished from its bucket is not found and a duplicate is registered; Arguments.from_call binds and applies the defaults on every return path (C15/R2) - the same call spelled differently gets the same identity")
+    sub7 = Context("C16", repo, ctx.tier, ctx.seed)
+    sub7._resolver = ctx._resolver
+    c16.r7(sub7, ["BaseOrchestrator"])
+    for i in sub7.instances:
+        ctx.add("R5", i.key.split("/", 2)[2], i.ok, i.where, i.detail)
+    sub15 = Context("C15", repo, ctx.tier, ctx.seed)
+    sub15._resolver = ctx._resolver
+    c15.r2(sub15)
+    for i in sub15.instances:
+        k = i.key.split("/", 2)[2]
+        if "from_call::" in k:
+            ctx.add("R5", k, i.ok, i.where, i.detail)
+    ctx.floor("R5", "shared obligations", ctx.count("R5"), 4)
     ctx.exhaustive = True
     ctx.not_decided += [
         "histories of submissions interleaved with claims and completions (needs execution)",
